@@ -232,6 +232,8 @@ def wf(mgr, exempt):
         # le_coc_channels[h][k] is an LE channel of connection h with destination CID k, the peer can address it,
         # and it is the channel registered under its source CID
         forall_items(le, lambda h, d: forall_items(d, lambda k, c: c.destination_cid == k and is_le(c) and c.connection.handle == h and same(c.manager, mgr) and (le_open(c) or same(c, exempt)) and same(entry(ch, h, c.source_cid), c))),
+        # conversely, an LE channel that the peer can address (connected / disconnecting) is registered under its destination CID
+        forall_items(ch, lambda h, d: forall_items(d, lambda k, c: implies(is_le(c) and le_open(c), same(entry(le, h, c.destination_cid), c)))),
     ]
 
 
@@ -303,7 +305,7 @@ def closed_effect(self, self0, channel, ghost, ghost0):
 
 EFFECT_NAMES = ['gone-from-channels', 'gone-from-le-coc-channels', 'channels-outer-unchanged', 'le-outer-unchanged', 'outer-pool-unchanged',
                 'other-connections-untouched', 'only-own-slot-in-channels', 'only-own-slot-in-le', 'foreign-le-entry-kept']
-WF_NAMES = ['wf-tables-distinct', 'wf-channels-inner-distinct', 'wf-le-inner-distinct', 'wf-inner-disjoint', 'wf-channels', 'wf-le-coc-channels']
+WF_NAMES = ['wf-tables-distinct', 'wf-channels-inner-distinct', 'wf-le-inner-distinct', 'wf-inner-disjoint', 'wf-channels', 'wf-le-coc-channels', 'wf-open-le-channel-registered']
 
 # main view: called on a well-formed manager for a registered channel that has just reached its final state
 contract(
